@@ -2816,9 +2816,12 @@ class AggregateBase(UnitsManaged, Saveable, OpenSystem):
                     Ndim = HH.dim
                     re = numpy.zeros(Ndim-start, dtype=numpy.float64)
                     # we need to subtract reorganization energies
+                    # (a vibronic state carries the reorganization energy of
+                    # the electronic state it belongs to)
                     for i in range(n1ex):
                         re[i] = \
-                        self.sbi.get_reorganization_energy(i)
+                        self.sbi.get_reorganization_energy(
+                                                self.elinds[start+i]-1)
                 else:
                     HH = relaxation_hamiltonian
                     Ndim = HH.dim
